@@ -13,7 +13,7 @@ import json
 
 RUN_DROP = {"RunFile", "SupprInit", "AiOpen", "AiOpened", "AiWrite", "AiClose", "AiClosed", "AiReopen", "FilesTxt",
             "Config", "ConfigChecked", "HashSkip", "CacheHit", "CacheMiss", "AddonLine", "AddonFail",
-            "ThreadsSpawned", "SyncFwd", "Send", "WpMemEnd0"}
+            "ThreadsSpawned", "SyncFwd", "Send", "Access"}
 
 FINDING_FIELDS = ("id", "sev", "inc", "file", "line", "col", "msg")
 
